@@ -32,7 +32,7 @@ ASSUMPTIONS = ["zero-length alignments (start = end) are outside the domain",
 
 
 def plan(tier):
-    return {"cases": 1200 if tier == "quick" else 20000, "shards": 16,
+    return {"cases": 1200 if tier == "quick" else 80000, "shards": 16,
             "shard_budget_s": 300 if tier == "quick" else 3300}
 
 
